@@ -80,3 +80,20 @@ def r13(run, tree):
 
 
 RULES = [r_shared_c01_r12, r1, r2, r3, r4, r5, r6, r7, r8, r9, r11, r13]
+
+
+def t_all_selections(run, tree):
+    run.rule("C01.T1", "thorough: one (level, domain) block folded for EVERY selection of the six AMR variables (64) and every selection of the variables of each mesh reader (3 x 8): "
+             "each selected variable is filled from its own record / axis and labelled with its own unit, unselected ones are not written, the block length is the same for all selections", "D1/D7 fold of read_variables / step_over on a symbolic file (S1 alignment by byte position)", "S1", floor=80)
+    lay.check_bodies(run, tree, all_subsets=True)
+
+
+
+
+def t_load_space(run, tree):
+    run.rule("C01.T2", "thorough: Loader.load folded over 324 scenarios (ndim 1-3 x ncpu 1-3 x levelmax 2-4 x nboundary 0-2 x level predicate x explicit cpu_list, with empty blocks) "
+             "and compared with the traversal specification", "D7 fold of Loader.load over recording readers", "S1 traversal", floor=3)
+    lfold.check_load_space(run, tree)
+
+
+THOROUGH_RULES = [t_load_space, t_all_selections]
